@@ -14,21 +14,30 @@
     (1) an IP is never assigned to a second node while the provider still has it assigned to another;
     (2) every IP of a bound live pod is assigned to that pod's node;
     (3) an IP is unassigned before it is freed or handed to a different owner.
-  What is proved is (1)-(3) for every history whose moves satisfy the decidable side conditions `assumedAll`:
-    (a) the side conditions of C04 (`Galaxy.Plugin.assumed`: non-empty names; the two bind conditions that the fix
-        "bind stored a stale pod uid ..." now enforces in the code);
-    (b) no APISERVER fault (the property quantifies over provider calls failing cleanly; `pfault` is arbitrary), and
-        reload / restart / the pod-IP sync pass are not in the move set;
-    (c) `bindSameNode`: at a bind the records stored under the pod's key name no OTHER node than the one the pod is
-        being bound to - "no bind retry on a different node";
-    (d) `singleKeys`: no pod key owns two addresses.
-  (c) and (d) are NOT guaranteed by the code - two genuine deviations, both confirmed on the real plugin:
+  What is proved is (1)-(3) for every history over ALL moves of the plugin model except reload - filter, preempt, bind,
+  event delivery, both resync forms, API release, the pod-IP sync pass, administrator reservations, process restart,
+  lister lag - with ONE failing apiserver call per move (index arbitrary) and one failing provider call per move (index
+  arbitrary), whose moves satisfy the decidable side conditions `assumedAll`:
+    (a) the side conditions of C04 (`Galaxy.Plugin.assumed`: non-empty names; the scheduler sends the pod UID);
+    (b) `restart`: no unprocessed orphan (`orphans = []`: restart after an interrupted configuration change re-reads a
+        store that differs from memory - that is C05's scenario, not a call-order one);
+    (c) `bindSameNode`: at a bind the records stored under the pod's key by THIS incarnation name no OTHER node than the
+        one the pod is being bound to - "no bind retry on a different node";
+    (d) `singleKeys` (resync, API release): no pod key owns two addresses;
+    (e) `bindNoReuse` or no apiserver fault (bind only): the failing apiserver call is not the `UpdateAttr` after a
+        successful AssignIP.
+  (c), (d), (e) are NOT guaranteed by the code - three genuine deviations, all confirmed on the real plugin:
     * DESIGN D14 (`assign_only_when_unassigned_or_same_node_counter`, corpus/C10/d14.ops, known finding
       rebind-other-node-without-unassign): a pod bound (or half bound) on node 1 is bound again on node 2; the UID matches,
       AssignIP(node 2) is sent while the provider still has node 1, nothing unassigns node 1;
     * multi-address keys (`unassign_before_free_or_rekey_counter`, corpus/C10/multi-ip-resync.ops, known finding
       freed-or-rekeyed-while-assigned:multi-ip-key): resync / API release unassign ONE address and then clear or release
-      EVERY address of the key.
+      EVERY address of the key;
+    * AssignIP ok, then UpdateAttr fails (`assign_only_when_unassigned_or_same_node_fault_counter`,
+      corpus/C10/updateattr-fault.ops, known finding stored-node-lost:assign-ok-updateattr-failed): the bind fails, the
+      provider has the address on n1, the record still names no node; every later move satisfies (a)-(d), and the
+      scheduler's retry on n2 sends AssignIP(n2) while the provider still has n1 - statement (1) itself fails, not only
+      `stored_node_is_provider_node`.  So (e) cannot be dropped by weakening the theorem to call ORDER.
   Hence the suffix `_partial`.
 -/
 import Galaxy.Lemmas.C10Key
@@ -116,7 +125,8 @@ theorem bound_pod_ip_assigned_to_its_node_partial (c : Conf) (hp : c.provider = 
   (reachable_invariant c hp ms hok).bound q hq hd hhd
 
 /-- "stored node name per IP = where the provider has the IP assigned": in every reachable state an address the provider
-    has assigned to node `n` is allocated and its record names `n`. -/
+    has assigned to node `n` is allocated and its record names `n` - the invariant that makes (1) inductive; side
+    condition (e) is exactly what it needs (`assign_only_when_unassigned_or_same_node_fault_counter`). -/
 theorem stored_node_is_provider_node_partial (c : Conf) (hp : c.provider = true) (ms : List Move)
     (hok : allAssumed10 (init c) ms = true) (ip : IP) (n : String)
     (h : Tbl.get (prov (run Galaxy.Plugin.facts (init c) ms)) ip = some n) :
@@ -157,6 +167,33 @@ example : (run Galaxy.Plugin.facts (init conf1) good1).plog =
        .unassign "n1" 168427522 true, .assign "n2" 168427522 true] ∧
     Tbl.get (prov (run Galaxy.Plugin.facts (init conf1) good1)) 168427522 = some "n2" := by decide
 
+/-- apiserver faults in filter, bind, sync pass and event delivery, a process restart, the pod-IP sync pass, an
+    administrator's reservation made and lifted -/
+def good2 : List Move := [
+  .scale .sts "ns1" "a" 1,
+  .createPod "ns1" "a-0" .sts "a" "" 2 [] true,
+  .listerSync true true,
+  .filter "ns1" "a-0" ["n1", "n2"] {} 1,
+  .filter "ns1" "a-0" ["n1", "n2"] {} 0,
+  .bind "ns1" "a-0" 1 "n1" { pick := some 168427522 } 1 0,       -- the store write fails: nothing assigned
+  .bind "ns1" "a-0" 1 "n1" { pick := some 168427522 } 2 0,
+  .bind "ns1" "a-0" 1 "n1" {} 0 0,
+  .runPod "ns1" "a-0",
+  .syncPodIPs 1,
+  .restart,
+  .syncPodIPs 0,
+  .adminReserve 168427523 "ops" 2,
+  .deletePod "ns1" "a-0",
+  .deliver 0 1 0,                                                 -- the apiserver read fails, the event is re-queued
+  .deliver 0 0 0,
+  .adminUnreserve 168427523 ]
+
+set_option maxRecDepth 100000 in
+/-- the side conditions are satisfiable by a history with apiserver faults, restart, the sync pass and reservations -/
+example : allAssumed10 (init conf1) good2 = true ∧
+    logOK (run Galaxy.Plugin.facts (init conf1) good2).plog = true ∧
+    (run Galaxy.Plugin.facts (init conf1) good2).plog.length = 4 := by decide
+
 /-! ### counter theorems -/
 
 /-- DESIGN D14 (corpus/C10/d14.ops): a-0 is bound on n1; the scheduler binds the same pod again on n2 -/
@@ -183,6 +220,45 @@ theorem assign_only_when_unassigned_or_same_node_counter :
     (next Galaxy.Plugin.facts (run Galaxy.Plugin.facts (init conf1) d14) d14rebind).plog =
       [.assign "n1" 168427522 true, .assign "n2" 168427522 true] ∧
     logOK (next Galaxy.Plugin.facts (run Galaxy.Plugin.facts (init conf1) d14) d14rebind).plog = false := by decide
+
+/-- a-0 (policy never) is bound on n1, deleted, its event unassigns the address and keeps the reservation; the successor
+    a-0 is filtered (corpus/C10/updateattr-fault.ops) -/
+def uaf : List Move := [
+  .scale .sts "ns1" "a" 1,
+  .createPod "ns1" "a-0" .sts "a" "" 2 [] true,
+  .listerSync true true,
+  .filter "ns1" "a-0" ["n1", "n2"] {} 0,
+  .bind "ns1" "a-0" 1 "n1" { pick := some 168427522 } 0 0,
+  .deletePod "ns1" "a-0",
+  .deliver 0 0 0,
+  .createPod "ns1" "a-0" .sts "a" "" 2 [] true,
+  .listerSync true true,
+  .filter "ns1" "a-0" ["n1", "n2"] {} 0 ]
+
+/-- the bind of the successor on n1 whose second apiserver call - the `UpdateAttr` after AssignIP - fails -/
+def uafBind : Move := .bind "ns1" "a-0" 2 "n1" {} 2 0
+
+/-- the scheduler's retry, on n2, without any fault -/
+def uafRetry : Move := .bind "ns1" "a-0" 2 "n2" {} 0 0
+
+set_option maxRecDepth 100000 in
+/-- WITHOUT side condition (e) statement (1) is false: every move of `uaf` satisfies all side conditions; `uafBind`
+    satisfies all of them except (e) (it re-uses the reserved address and its apiserver fault index is not 0); AssignIP(n1)
+    succeeds, UpdateAttr fails, the bind fails: the provider has the address on n1 while the record names no node.  The
+    retry on n2 then satisfies EVERY side condition (no record of the key names another node) and sends AssignIP(n2)
+    while the provider still has n1.  The real code does the same (known finding
+    stored-node-lost:assign-ok-updateattr-failed). -/
+theorem assign_only_when_unassigned_or_same_node_fault_counter :
+    allAssumed10 (init conf1) uaf = true ∧
+    assumed (run Galaxy.Plugin.facts (init conf1) uaf) uafBind = true ∧
+    bindSameNode (run Galaxy.Plugin.facts (init conf1) uaf) "ns1" "a-0" "n1" = true ∧
+    bindNoReuse (run Galaxy.Plugin.facts (init conf1) uaf) "ns1" "a-0" {} = false ∧
+    (Tbl.get (next Galaxy.Plugin.facts (run Galaxy.Plugin.facts (init conf1) uaf) uafBind).alloc 168427522).map (·.node) = some "" ∧
+    Tbl.get (prov (next Galaxy.Plugin.facts (run Galaxy.Plugin.facts (init conf1) uaf) uafBind)) 168427522 = some "n1" ∧
+    logOK (next Galaxy.Plugin.facts (run Galaxy.Plugin.facts (init conf1) uaf) uafBind).plog = true ∧
+    assumedAll (next Galaxy.Plugin.facts (run Galaxy.Plugin.facts (init conf1) uaf) uafBind) uafRetry = true ∧
+    logOK (next Galaxy.Plugin.facts (next Galaxy.Plugin.facts (run Galaxy.Plugin.facts (init conf1) uaf) uafBind) uafRetry).plog
+      = false := by decide
 
 /-- a pod with two requested ranges (two addresses under one key), bound on n1, deleted, its delete event lost -/
 def multi : List Move := [
